@@ -28,6 +28,7 @@ func verifNewTranslateFile(mem *verifMemFile, small bool) *TranslateFile {
 	if verifNative() {
 		// the native replay needs a real handle for file.Sync()
 		file, _ = os.CreateTemp("", "verif-translate")
+		defer os.Remove(file.Name())
 	}
 	s := &TranslateFile{
 		data: mem.buf, file: file, w: bufio.NewWriter(mem),
